@@ -520,34 +520,8 @@ pub struct Unit0 { }
 // ================================================================== C09: escaped text is inert (theorems over the contracts above)
 // RFC 4515 section 3 escaping as a function: what ldap_escape is checked against (KX-escape: ldap_escape(v) == esc(v) on the
 // real code, bounded Kani; the loop itself is `for (i, &c) in ..enumerate()` over a Cow<str>, outside this Verus)
-pub open spec fn special(b: u8) -> bool { b == 0 || b == 0x28 || b == 0x29 || b == 0x2a || b == 0x5c }
-pub open spec fn hexdig(n: int) -> u8 { if n < 10 { (0x30 + n) as u8 } else { (0x61 + n - 10) as u8 } }
-pub open spec fn esc_byte(b: u8) -> Seq<u8> { if special(b) { seq![0x5cu8, hexdig(b as int / 16), hexdig(b as int % 16)] } else { seq![b] } }
-pub open spec fn esc(v: Seq<u8>) -> Seq<u8> decreases v.len() { if v.len() == 0 { Seq::<u8>::empty() } else { esc_byte(v[0]) + esc(v.skip(1)) } }
-
-// the character classes ldap_escape / dn_escape use (nested helper functions of src/util.rs, lifted)
-//@lift name=needs_escape file=src/util.rs fn=needs_escape
-//@ ret r
-//@ spec
-    ensures r == special(c), //# C09.ldap_escape_escapes_exactly_backslash_asterisk_parentheses_nul
-//@end
-//@lift name=always_escape file=src/util.rs fn=always_escape
-//@ ret r
-//@ spec
-    // RFC 4514 2.4: " + , ; < > \ and NUL (the library also escapes '=')
-    ensures r == (c == 0x22 || c == 0x2b || c == 0x2c || c == 0x3b || c == 0x3c || c == 0x3d || c == 0x3e || c == 0x5c || c == 0), //# C09.dn_escape_special_characters_rfc4514
-//@end
-//@lift name=escape_leading file=src/util.rs fn=escape_leading
-//@ ret r
-//@ spec
-    ensures r == (c == 0x20 || c == 0x23), //# C09.dn_escape_leading_space_or_hash
-//@end
-//@lift name=escape_trailing file=src/util.rs fn=escape_trailing
-//@ ret r
-//@ spec
-    ensures r == (c == 0x20), //# C09.dn_escape_trailing_space
-//@end
-
+//@include contracts/shared/esc_spec.rs
+// (the escape functions themselves, with their nested character-class helpers, are under contract in unit V-escape)
 pub proof fn lemma_scan_step(i: Seq<u8>, st: Unescaper, acc: Seq<u8>)
     requires i.len() > 0, value_char(i[0]),
     ensures ({ let st2 = feed_spec(st, i[0]); let acc2 = if st2 is Value { acc.push(st2->Value_0) } else { acc }; let r = scan(i.skip(1), st2, acc2); scan(i, st, acc) == (1 + r.0, r.1, r.2) }),
